@@ -1,14 +1,15 @@
 // C11: `lzd <entry> <flag> B<stream>` -> decompression through one of the four entry points
 //   entry: 10 = LZ10CompressionFormat::decompress, 13 = LZ13CompressionFormat::decompress,
 //          f10 / f13 = the same through CompressionFormat::decompress (format dispatch)
-//   flag:  1 = print the bytes, 0 = print `H<len>:<fnv64>` (large outputs; the model skips the case)
+//   flag:  1 = print the bytes, 0 = print `H<len>:<fnv64>` (large outputs; the model skips the case),
+//          2 = as 0 (tells the oracle that the announced size is large on purpose: 16 MiB boundary)
 // result: `ok B<bytes>` | `ok H<len>:<hash>` | `err`
 use crate::h_lz::show_bytes;
 use crate::h_util::parse_b;
 use mila::{CompressionFormat, LZ10CompressionFormat, LZ13CompressionFormat};
 
 pub fn run(toks: &[&str]) -> String {
-    let full = toks[1] != "0";
+    let full = toks[1] == "1";
     let input = parse_b(toks[2]);
     let r = match toks[0] {
         "10" => LZ10CompressionFormat {}.decompress(&input),
